@@ -47,6 +47,25 @@ type Hooks struct {
 	trace  bool
 	events []string
 	nholds atomic.Int32
+	mmu    sync.Mutex
+	mev    map[uint32][]string // per node: recent per-message events (diagnosis aid for witnesses)
+}
+
+func (h *Hooks) msgHit(point string, node uint32, msgID uint64) {
+	h.mmu.Lock()
+	ev := h.mev[node]
+	if len(ev) >= 400 {
+		ev = ev[200:]
+	}
+	h.mev[node] = append(ev, fmt.Sprintf("%s#%d", point, msgID))
+	h.mmu.Unlock()
+}
+
+// MsgEvents returns the recent per-message events of a node (enqueue, write, write error, receive, cancel).
+func (h *Hooks) MsgEvents(node uint32) []string {
+	h.mmu.Lock()
+	defer h.mmu.Unlock()
+	return append([]string(nil), h.mev[node]...)
 }
 
 var (
@@ -59,7 +78,9 @@ func InstallHooks() *Hooks {
 	hooksOnce.Do(func() {
 		hooks = &Hooks{counts: map[pk]int64{}, last: map[pk]time.Time{}, points: map[string]int64{}}
 		hooks.cond = sync.NewCond(&hooks.mu)
+		hooks.mev = map[uint32][]string{}
 		gorums.VerifSetHook(hooks.hit)
+		gorums.VerifSetMsgHook(hooks.msgHit)
 	})
 	return hooks
 }
